@@ -282,6 +282,18 @@ func c09Configs(thorough bool) (cfgs []modelCfg, bounds []int) {
 			bounds = append(bounds, 0)
 		}
 	}
+	// a rule that assigns locals and then fails at rule level, followed by a rule that reads those names
+	// without defining them: the second one must fail too (its leak probe must never be reached)
+	for _, first := range []string{"x = 5\n  y = 6\n  if x {\n    y = 1\n  }", "x = 5\n  y = 6\n  for i = 0; y; i += 1 {\n    y = 1\n  }", "x = 5\n  y = 1 / zero"} {
+		for _, m := range models {
+			if m.dag != nil || m.conc {
+				continue
+			}
+			rules := []ruleCfg{{Name: ruleNames[0], Sal: 9, Fault: first}, {Name: ruleNames[1], Sal: 6, Fault: "ev3(\"leak\", 2, x + y)"}, {Name: ruleNames[2], Sal: 3}}
+			cfgs = append(cfgs, modelCfg{Prop: "C09", Rules: rules, Model: m.name, B: true, N: m.n, M: m.m, Names: m.names, Twice: true})
+			bounds = append(bounds, 0)
+		}
+	}
 	// conc blocks start goroutines in every model: every fault inside a conc block (and blocks with
 	// several members of the kind that fails) once more in the sort model under real schedule exploration
 	concFaults := []string{
@@ -450,7 +462,7 @@ func init() {
 		BudgetThor:  30 * time.Minute,
 		Kind:        "schedules",
 		Rule: fmt.Sprintf("%d statement faults + %d return-position faults (type mismatches in arithmetic/comparison/logic/!, division by zero, unknown variable/function/method, wrong-class stores, stores into maps that were never made, nil pointers, out-of-range / negative / wrong-type indexes and keys, non-boolean conditions, bad call arguments and arities, panicking injected functions (value, error, runtime error), void result used as value, failing loop step, non-iterable forRange, faults inside conc) x nesting {top, if, for, forRange} [quick: rotated] + 6 endless for loops (iterations ending normally, through continue - direct, nested, mixed -, with an unreachable break), ", len(faultStmts), len(faultReturns)) +
-			"as rule 1-of-3 and 2-of-3 next to healthy observer rules x every engine model (x policy) [quick: every second], each called twice on the same engine (alternately with a fresh data context and on the same builder and data context) under the default schedule; representatives under every schedule with <=1 (2) deviations from the default scheduler (delay bounding) in the goroutine-spawning models; every fault inside a conc block, and conc blocks with several members of the failing kind, in the sort model under every schedule with <=1 (2) deviations; plus loops whose body grows the slice / map they range over (must complete, in every model); plus representatives behind all 24 pool execute methods x execution models, three requests each. " +
+			"as rule 1-of-3 and 2-of-3 next to healthy observer rules x every engine model (x policy) [quick: every second], each called twice on the same engine (alternately with a fresh data context and on the same builder and data context) under the default schedule; representatives under every schedule with <=1 (2) deviations from the default scheduler (delay bounding) in the goroutine-spawning models; every fault inside a conc block, and conc blocks with several members of the failing kind, in the sort model under every schedule with <=1 (2) deviations; plus loops whose body grows the slice / map they range over (must complete, in every model); plus a rule that assigns locals and then fails, followed by a rule that reads those names undefined (must fail as well); plus representatives behind all 24 pool execute methods x execution models, three requests each. " +
 			"Oracle: the call returns (no panic in the caller, no panic on any gengine goroutine, no deadlock, step horizon not exceeded), error non-nil, the other rules run exactly as the model's reference plan prescribes, the second call behaves the same",
 		Assume: []string{"injected functions terminate", "one level of unbounded loop (the engine's 10000-iteration cut-off)"},
 		Run: func(c *hx.Ctx) {
